@@ -600,6 +600,10 @@ func checkStreamWriter(p *Program, r *Result) {
 						a := ctb.atomOf(Guard{If: ifi, Cond: ifi.Cond, Pol: pa.Edge[bi] == 0})
 						if a.Kind == "cmp" && a.Y.Op == "Nil" && a.Op == "!=" && a.X.V != nil {
 							knownNonNil[stripConv(a.X.V)] = true
+							// the failure of a flushChunk that records its own failure in w.err
+							if c, isC := stripConv(a.X.V).(*ssa.Call); isC && calleeName(&c.Call) == flush.String() && latchesOwnError(p, flush) {
+								state = "nonnil"
+							}
 						}
 						if a.Kind == "cmp" && a.Y.Op == "Nil" && lastStore != nil && a.X.V != nil && stripConv(a.X.V) == stripConv(lastStore.Val) {
 							// the branch tests the value just stored in w.err
